@@ -577,6 +577,12 @@ func GenCase(prop string, seed uint64, thorough bool) *Case {
 			// a commit whose manifest write fails and is retried, racing Close
 			return genConcFault(prop, seed, g)
 		}
+		if r.p(0.12) {
+			// transactions among concurrent readers, snapshot takers and
+			// writers: nobody sees a transaction half-committed, a snapshot
+			// taken during a commit stays what it was
+			return genConc(prop, seed, g, thorough)
+		}
 	case "C09":
 		if r.p(0.12) {
 			// Close racing a transaction commit that is retried after manifest
